@@ -43,6 +43,14 @@ def gen(rnd):
         A["charge"] = rnd.choice([1, 2, 3, -1])
         if rnd.random() < 0.4:
             A["adducts"] = [{"v": "s:" + adduct_string(rnd), "m": 1}]
+    if rnd.random() < 0.12:
+        # a labile group written as formulas (its mass has more decimals than any table keeps)
+        A["labile"] = [{"v": "s:" + rnd.choice(anngen.FORMULAS[:8]), "m": rnd.choice([1, 1, 2])} for _ in range(rnd.choice([1, 1, 2]))]
+    if rnd.random() < 0.1:
+        # two rules that share a target, the one with several targets first or second
+        a_, b_ = rnd.choice([("[Oxidation]@M,C", "[Methyl]@C"), ("[Formula:C2H4]@K,R", "[3.5]@N-Term,K"), ("[1]@P,E", "[Methyl][Oxidation]@E"),
+                             ("[Phospho]@S,T,Y", "[+15.995]@T")])
+        A["static"] = [{"v": "s:" + x, "m": 1} for x in ((a_, b_) if rnd.random() < 0.7 else (b_, a_))]
     if rnd.random() < 0.1:
         A = anngen.empty(A["seq"])
     return A
